@@ -853,7 +853,11 @@ func (s *State) extendFunctionEnv(
 		params = params[:n]
 		// Expending the last argument expecting it to be "..", but any other array will do too.
 		if len(args) > 0 && args[len(args)-1].Type() == object.ARRAY {
-			args = append(args[:len(args)-1], object.Elements(args[len(args)-1])...)
+			// (a new slice: the caller's one is the memoization key)
+			last := object.Elements(args[len(args)-1])
+			expanded := make([]object.Object, 0, len(args)-1+len(last))
+			expanded = append(expanded, args[:len(args)-1]...)
+			args = append(expanded, last...)
 		}
 		if len(args) >= n {
 			extra = args[n:]
